@@ -1261,9 +1261,10 @@ class NetRun:
         if self.persist:
             self.probe("restarts_with_persistence")
             if after != before:
-                cls = "roundtrip-mismatch" if self.cfg.get("force_dirty") else "restart-lost-state"
+                as_roundtrip = self.cfg.get("force_dirty") or self.cfg.get("roundtrip_view")
+                cls = "roundtrip-mismatch" if as_roundtrip else "restart-lost-state"
                 self.add(vio(cls, {"diff": _diff(after, before), "format": self.persist, "last_change": self.last_change_kind},
-                             format=self.persist, last_change=None if self.cfg.get("force_dirty") else self.last_change_kind))
+                             format=self.persist, last_change=None if as_roundtrip else self.last_change_kind))
             # continue from what was really loaded so later ops stay meaningful
             for nid, rec in after.items():
                 if "children" not in rec:
@@ -1533,7 +1534,16 @@ class NetRun:
                 self.start()
                 self._guarded_ops(self.case["ops"])
             except StopRun:
-                pass
+                if self.persist and not self.stopping and self.violations:
+                    # lock-step comparison ended early (processing raised, a thread died, the state diverged): the application still
+                    # stops the gateway and starts the next one - what the stopped gateway held must come back all the same
+                    try:
+                        self.probe("restart_after_failed_run")
+                        self.op_restart(None, {})
+                    except (StopRun, kernel.SimAbort, kernel.Deadlock):
+                        pass
+                    except Exception:  # pylint: disable=broad-except
+                        pass  # the model may no longer follow; only what op_restart itself established counts
             except kernel.SimAbort as exc:
                 incomplete = str(exc)
             except kernel.Deadlock as exc:
